@@ -70,7 +70,9 @@ type tryBreaker interface {
 }
 
 func send(r *rig.Rig, c Case, nonce string, body []byte) (*rawclient.Response, error) {
-	hs := [][2]string{{"Content-Type", "application/json"}, {"X-Verif-Nonce", nonce}, {"X-Custom-A", "va"}, {"X-Custom-A", "vb"}, {"Accept", "application/json"}, {"Connection", "close"}}
+	// (Olla sits behind another proxy: the client's forwarding chain must reach every candidate alike)
+	hs := [][2]string{{"Content-Type", "application/json"}, {"X-Verif-Nonce", nonce}, {"X-Custom-A", "va"}, {"X-Custom-A", "vb"}, {"Accept", "application/json"},
+		{"Via", "1.1 edge-proxy"}, {"X-Forwarded-For", "203.0.113.9"}, {"Connection", "close"}}
 	var plan []int
 	if c.Chunked && len(body) > 0 {
 		plan = []int{len(body)/3 + 1, len(body) / 3}
@@ -84,7 +86,7 @@ func fingerprint(q *backend.RawRequest) string {
 	for _, h := range q.Headers {
 		n := strings.ToLower(h[0])
 		switch n {
-		case "x-verif-nonce", "x-custom-a", "accept", "content-type":
+		case "x-verif-nonce", "x-custom-a", "accept", "content-type", "via", "x-forwarded-for":
 			hs = append(hs, n+"="+h[1])
 		}
 	}
@@ -360,6 +362,18 @@ func runCase(c Case) []ev.Violation {
 			_ = r.S.Health.RunHealthCheck(context.Background(), false)
 			if s2 := r.S.Statuses(); s2[names[readmit]] != domain.StatusHealthy {
 				bad("not-readmitted-after-health-check", "candidate %d answers its health check again but is %q after RunHealthCheck: %s", readmit, s2[names[readmit]], desc)
+			} else {
+				// a second outage of the readmitted endpoint is treated like the first
+				r.Raw[readmit].SetScript(scriptFor("rst0", r.Raw[readmit].ID))
+				seen0 := len(r.Raw[readmit].Exchanges())
+				for k := 0; k < 4 && len(r.Raw[readmit].Exchanges()) == seen0; k++ {
+					_, _ = send(r, c, fmt.Sprintf("again%d", k), body)
+				}
+				if len(r.Raw[readmit].Exchanges()) > seen0 {
+					if s3 := r.S.Statuses(); routable(s3[names[readmit]]) {
+						bad("failed-endpoint-still-routable/second-outage", "candidate %d was readmitted by a health check, then reset the connection again, but its status is %q afterwards: %s", readmit, s3[names[readmit]], desc)
+					}
+				}
 			}
 		}
 	}
@@ -458,7 +472,7 @@ func genCase(t *rapid.T) Case {
 
 func TestC04(t *testing.T) {
 	defer rig.StopAll()
-	rec.SetRule("assignments of per-candidate outcomes to up to 3 endpoints: asserted {ok, refuse, connect timeout (a local address whose accept queue is full, so dials time out after proxy.connection_timeout = 0.5 s), reset-before-headers, circuit-open (olla engine, opened through the exported breaker API)} and explored {closed-without-answer, garbage}; all asserted tuples (and all explored tuples up to length 2; length 3 in thorough) x 3 balancers x 2 engines are enumerated, rapid adds request bodies/methods and warm-up histories; the client response, per-backend attempt counts and request fingerprints, repository statuses, five follow-up requests and a health-check readmission are judged. Sub-check 'fanout': 2..48 simultaneous requests spread round-robin over 1..48 never-seen reachable endpoints (each request is the first its endpoint ever gets): all must be served, each exactly once. non-trivial = >=2 candidates with the first-tried one failing; distinct by (engine, balancer, outcome tuple, warm-up, method)")
+	rec.SetRule("assignments of per-candidate outcomes to up to 3 endpoints: asserted {ok, refuse, connect timeout (a local address whose accept queue is full, so dials time out after proxy.connection_timeout = 0.5 s), reset-before-headers, circuit-open (olla engine, opened through the exported breaker API)} and explored {closed-without-answer, garbage}; all asserted tuples (and all explored tuples up to length 2; length 3 in thorough) x 3 balancers x 2 engines are enumerated, rapid adds request bodies/methods and warm-up histories; the client response, per-backend attempt counts and request fingerprints, repository statuses, five follow-up requests, a health-check readmission and a second outage of the readmitted endpoint are judged. Sub-check 'fanout': 2..48 simultaneous requests spread round-robin over 1..48 never-seen reachable endpoints (each request is the first its endpoint ever gets): all must be served, each exactly once. non-trivial = >=2 candidates with the first-tried one failing; distinct by (engine, balancer, outcome tuple, warm-up, method)")
 	rec.Assume("for explored outcomes (close without answer, garbage) only at-most-once, no mixing and no 2xx without a working candidate are asserted")
 	if ev.Replay(t, rec, "failover", runCase) || ev.Replay(t, rec, "fanout", runFan) {
 		return
